@@ -47,11 +47,26 @@ const FAMILIES: &[&str] = &["rfail", "rfail", "rfail", "wfail", "wfail", "wfail"
 
 fn gen(seed: u64, idx: u64, _t: Tier) -> J {
 	let mut r = Rng::derive(seed, "C12", idx);
-	let (f, stream) = corpus_stream(&mut r, 6);
+	let (f, mut stream) = corpus_stream(&mut r, 6);
+	if idx % 10 == 9 && f != crate::scenario::Fmt::Toml {
+		// A larger input: several buffer refills (8 KiB BufReader, 16 KiB libyaml) lie inside it.
+		let unit = stream.bytes.clone();
+		let sep: &[u8] = if f == crate::scenario::Fmt::Json { b"\n" } else { b"" };
+		let target = r.log_range(9_000, 40_000);
+		while stream.bytes.len() < target && !unit.is_empty() {
+			if f == crate::scenario::Fmt::Yaml && !unit.starts_with(b"---") {
+				stream.bytes.extend_from_slice(b"---\n");
+			}
+			stream.bytes.extend_from_slice(sep);
+			stream.bytes.extend_from_slice(&unit);
+		}
+	}
 	let from = pick_from(&mut r, f);
 	let to = pick_target(&mut r);
 	let reader = r.chance(4, 5);
 	let sched = if reader { gen::gen_sched(&mut r, stream.bytes.len()) } else { Sched::whole() };
+	// Single-byte schedules over tens of KiB cost more than they tell.
+	let sched = if stream.bytes.len() > 8000 && sched.cycle && sched.list.iter().all(|n| *n < 16) { Sched::bytes(r.range(200, 3000) as u32) } else { sched };
 	let family = *r.pick(FAMILIES);
 	let mut call = Call::reader(stream.bytes.clone(), from, sched);
 	call.reader = reader || family == "rfail" || family == "reintr";
@@ -73,14 +88,15 @@ fn positions(n: usize) -> Vec<usize> {
 	if n <= 700 {
 		return (0..=n).collect();
 	}
-	let mut v: Vec<usize> = (0..=128).collect();
-	let stride = (n / 400).max(1);
-	let mut k = 128;
-	while k + 128 < n {
+	let mut v: Vec<usize> = (0..=64).collect();
+	let stride = (n / 150).max(1);
+	let mut k = 64;
+	while k + 64 < n {
 		v.push(k);
-		k += stride;
+		// dense around the 8 KiB / 16 KiB buffer refills
+		k += if (k % 8192) < 4 || (k % 8192) > 8188 { 1 } else { stride.min(8189 - (k % 8192)).max(1) };
 	}
-	v.extend((n - 128)..=n);
+	v.extend((n - 64)..=n);
 	v.sort_unstable();
 	v.dedup();
 	v
